@@ -139,6 +139,39 @@ def main():
                             nfail += 1
                             if len(fails) < 5:
                                 fails.append('hit policy %s%s%s%s, rules %s, A = %d => %s (expected %s)' % (policy, ' (allowed input values 1,2)' if in_values else '', ' (default output entry)' if default else '', ' (null components)' if nulls else '', ' | '.join('%s -> %s' % (i, ','.join(o)) for (i, o) in rules), a, g[:120], e))
+        # output values written as unary tests (intervals, comparisons, mixed with literals): a rule's output that satisfies them is returned as it is,
+        # one that does not is null (DMN 8.2.10: output values restrict the domain of the output)
+        OUTS = {1: 7, 2: 15, 3: 60}
+        tests = [('[0..100]', lambda v: 0 <= v <= 100), ('&gt;= 10', lambda v: v >= 10), ('7, [10..20]', lambda v: v == 7 or 10 <= v <= 20), ('&lt; 5, &gt; 50', lambda v: v < 5 or v > 50),
+                 ('(7..60)', lambda v: 7 < v < 60), ('7, 15, 60', lambda v: v in (7, 15, 60)), ('not(15)', lambda v: v != 15)]
+        p_ = ['<?xml version="1.0" encoding="UTF-8"?>', '<definitions namespace="https://verif/hpout" name="hpout" id="_d" xmlns="https://www.omg.org/spec/DMN/20191111/MODEL/">',
+              '  <inputData name="A" id="_A"><variable name="A" typeRef="number"/></inputData>']
+        for (k, (txt, _f)) in enumerate(tests):
+            for hp_ in ('UNIQUE', 'FIRST'):
+                name = 'OV_%d_%s' % (k, hp_)
+                rules = ''.join('<rule><inputEntry><text>%d</text></inputEntry><outputEntry><text>%d</text></outputEntry></rule>' % (a, o) for a, o in OUTS.items())
+                p_.append('  <decision name="%s" id="_%s"><variable name="%s"/><informationRequirement><requiredInput href="#_A"/></informationRequirement><decisionTable hitPolicy="%s">'
+                          '<input><inputExpression typeRef="number"><text>A</text></inputExpression></input><output><outputValues><text>%s</text></outputValues></output>%s</decisionTable></decision>'
+                          % (name, name, name, hp_, txt, rules))
+        p_.append('</definitions>')
+        path = os.path.join(work, 'ov.xml')
+        open(path, 'w', encoding='utf-8').write('\n'.join(p_))
+        pr = subprocess.run([exe, 'modelbatch', path, '{A: 1}', '{A: 2}', '{A: 3}'], capture_output=True, text=True, timeout=600)
+        got = {}
+        for line in pr.stdout.splitlines():
+            t = line.split('\t')
+            if len(t) == 3:
+                got[(t[0], t[1])] = t[2]
+        for (k, (txt, f_)) in enumerate(tests):
+            for hp_ in ('UNIQUE', 'FIRST'):
+                for a, o in OUTS.items():
+                    cases += 1
+                    g = got.get(('OV_%d_%s' % (k, hp_), '{A: %d}' % a), 'no answer')
+                    e = str(o) if f_(o) else 'null'
+                    if not (g.startswith('null') if e == 'null' else g == e):
+                        nfail += 1
+                        if len(fails) < 5:
+                            fails.append('hit policy %s, output values `%s`, rule output %d => %s (expected %s)' % (hp_, txt.replace('&gt;', '>').replace('&lt;', '<'), o, g[:80], e))
     finally:
         import shutil
         shutil.rmtree(work, ignore_errors=True)
